@@ -10,6 +10,8 @@ From PowHsm Require Import Proofs.C01.
 From PowHsm Require Import Proofs.C13.
 From PowHsm Require Import Gen.Src.
 From PowHsm Require Import Proofs.SrcEquivLedger.
+From PowHsm Require Import Gen.SrcM.
+From PowHsm Require Import Proofs.SrcEquivDongleM.
 Open Scope N_scope.
 
 (* for every device script: the chunks sent are contiguous slices of the data in order, each of the requested size capped by what remains, so what the device holds is always a prefix of the data *)
@@ -44,7 +46,7 @@ Theorem C01_chunks_ok_inv :
          chunks_loop fuel cmd op nexts full data req w = (Ok (true, r), w') ->
          exists (evs0 : list (bytes * resp)) (c : bytes),
            w' = after w (chunk_events cmd op (evs0 ++ [(c, Data r)])) (script w') /\
-           script w = (map snd evs0 ++ Data r :: script w')%list /\
+           script w = map snd evs0 ++ Data r :: script w' /\
            (exists rop : N, idx r 2 = Some rop /\ mem_N rop nexts = true /\ rop <> op) /\
            Forall (fun ca : bytes * resp => exists d : bytes, snd ca = Data d /\ idx d 2 = Some op)
              evs0 /\
@@ -111,7 +113,7 @@ Theorem C01_sign_unauthorized_trace :
          exists res : result sign_result,
            sign_unauthorized path (Some h) w =
            (res,
-            after w [Apdu ([CLA; CMD_SIGN; SIGN_OP_PATH] ++ path ++ h)%list (next_answer w)]
+            after w [Apdu ([CLA; CMD_SIGN; SIGN_OP_PATH] ++ path ++ h) (next_answer w)]
               (tl (script w))) /\
            (forall r s_ : bytes,
             res = Ok (inl (r, s_)) <->
@@ -171,7 +173,7 @@ Theorem C01_sign_authorized_device_holds :
          exists (inb : list N) (nv : N) (ed : bytes) (a1 : resp) (g2 g3 g4 : list (bytes * resp)),
            w' =
            after w
-             (Apdu ([CLA; CMD_SIGN; SIGN_OP_PATH] ++ path ++ inb)%list a1
+             (Apdu ([CLA; CMD_SIGN; SIGN_OP_PATH] ++ path ++ inb) a1
               :: group SIGN_OP_BTC_TX g2 ++
                  group SIGN_OP_TX_RECEIPT g3 ++ group SIGN_OP_MERKLE_PROOF g4) 
              (script w') /\
@@ -186,7 +188,7 @@ Proof. exact (@sign_authorized_device_holds). Qed.
 (* the reply's r and s are exactly the integers of the DER signature the device returned (first byte 0x30 or 0x31, trailing junk ignored) *)
 Theorem C01_der_roundtrip :
   forall (t : N) (r s_ : bytes) (junk : list N),
-         t = 48 \/ t = 49 -> der_parse (der_encode t r s_ ++ junk)%list = Some (r, s_).
+         t = 48 \/ t = 49 -> der_parse (der_encode t r s_ ++ junk) = Some (r, s_).
 Proof. exact (@der_parse_encode). Qed.
 
 (* TIE BY TRANSLATION: the DER reader that extracts r and s from the device's signature answer (ledger/signature.py as regenerated from the source text) is the model's der_parse *)
@@ -198,5 +200,25 @@ Theorem C01_source_der_reader_is_model :
          | None => PRaise ValueError
          end.
 Proof. exact (@src_der_parse_ok). Qed.
+
+(* TIE BY TRANSLATION (device monad): _send_data_in_chunks of ledger/hsm2dongle.py, as regenerated from the Python source text on this run (Gen/SrcM.v: the while loop, the slices, every exchange), runs on EVERY world - any device script - exactly as the model's chunk loop: same (ok, last answer) or exception and the same final world, hence the same APDUs in the same order; fuel of at least the script length + 1 is never exhausted *)
+Theorem C01_source_chunk_loop_is_model :
+  forall (fuel : nat) (self name desc : pv) (cmd op : N) (nexts : list N) 
+           (data : bytes) (full : bool) (initial : N) (w : world),
+         op < 256 ->
+         (S (Datatypes.length (script w)) <= fuel)%nat ->
+         srcm_HSM2Dongle___send_data_in_chunks fuel self (vN cmd) (vN op) 
+           (VList (map vN nexts)) (VBytes data) (VBool full) (vN initial) name desc w =
+         mres chunk_res (send_data_in_chunks cmd op nexts data full initial w).
+Proof. exact (@srcm_send_data_in_chunks_ok). Qed.
+
+(* sign_unauthorized of the source, as translated, is the model's on every world: the single APDU 80 02 01 path hash, the error-code table, the DER reader *)
+Theorem C01_source_sign_unauthorized_is_model :
+  forall (cm : string -> pv -> list pv -> pr pv) (self key_id : pv) 
+           (path_bin : bytes) (hash : str) (w : world),
+         cm "to_binary" key_id [] = POk (VBytes path_bin) ->
+         srcm_HSM2Dongle__sign_unauthorized cm self key_id (VStr hash) w =
+         mres sign_res (sign_unauthorized path_bin (fromhex hash) w).
+Proof. exact (@srcm_sign_unauthorized_ok). Qed.
 
 Example C01_nonvacuous : True. Proof. exact I. Qed. (* concrete runs closed by vm_compute in Proofs/C01.v: chunks_example (device asks 3, then 2, then moves on), chunks_example_early, the sign_authorized success and early-move-on examples *)
